@@ -596,4 +596,9 @@ def run(chk):
     chk.guard(r03_6, chk)
     chk.guard(r03_7, chk)
     chk.guard(r03_8, chk)
+    # "UT1−UTC … as tabulated by IERS for that day": the column layout of the IERS readers and the unit constants at the
+    # consumers are C02's clause R02.6; C03 needs it as much (a second sub-agent's C03 change was the sign column of UT1−UTC)
+    from .c02 import r02_6
+    chk.rule("R02.6", "(C03 dependency) EOP tables: fields, IERS column layout, unit constants at consumers")
+    chk.guard(r02_6, chk)
     chk.assume("TT−TAI = 32.184 s, TAI−GPS = 19 s, TDB−TT series of the Astronomical Almanac (two terms)")
